@@ -28,6 +28,13 @@ theorem adjacency_kinds_closed :
     ∀ k ∈ skelKeys ++ connKeys, (∀ d ∈ closure keyReads k, kindOf d ≠ .full) ∧
       (∀ r ∈ (keyRaw.lookup k).getD ["?"], r ∈ adjOnlyRaw) := by decide +kernel
 
+/-- every other `flush_cache(keep_…)` call site of the package (regenerated list of 29 sites: aromatics, standardize,
+stereo adders, tautomers, mapping) keeps at most what the hand-reviewed table allows for that method -/
+theorem bulk_sites_reviewed :
+    ∀ site ∈ bulkSites, (site.2.2.1 = Flag.no ∧ site.2.2.2 = Flag.no) ∨
+      ∃ r ∈ bulkReviewed, r.1 = site.2.1 ∧ (site.2.2.1 ≠ Flag.no → r.2.1 = true) ∧ (site.2.2.2 ≠ Flag.no → r.2.2 = true) := by
+  decide +kernel
+
 /-! ## histories -/
 
 /-- run a history (operation, observed `__dict__` keys after it) -/
